@@ -37,6 +37,22 @@ class Model:
                           and isinstance(c.func.value, ast.Name) and c.func.value.id in ('self', 'cls') and c.func.attr.startswith('_')
                           and not c.func.attr.startswith('__') and c.func.attr != '_parse_error' and self.mod.method(self.f.cls, c.func.attr) is not None})
         fn, _inl = normalize.inline_helpers(self.f, only=local_defs + gens + helpers)
+        fn = normalize.enum_members_to_locals(fn, self.mod)          # parser states as members of a module-level enum.Enum
+        # the rules speak about the parser states by the names the pinned code gives them; a state is identified by the text it stands
+        # for (which the diagnostics show), so a renamed local is the same state
+        STATE_TEXT = {'first heading': 'first_heading', 'next heading of EOF': 'next_heading_or_eof', 'start of change data': 'start_of_change_data',
+                      'more change data or trailer': 'more_changes_or_trailer', 'slurp to end': 'slurp_to_end'}
+        ren = {}
+        names_used = {n.id for n in ast.walk(fn) if isinstance(n, ast.Name)}
+        for st_ in fn.body:
+            if isinstance(st_, ast.Assign) and len(st_.targets) == 1 and isinstance(st_.targets[0], ast.Name) and isinstance(st_.value, ast.Constant) \
+                    and st_.value.value in STATE_TEXT and st_.targets[0].id != STATE_TEXT[st_.value.value] and STATE_TEXT[st_.value.value] not in names_used:
+                ren[st_.targets[0].id] = STATE_TEXT[st_.value.value]
+        if ren:
+            from ..core import clone as _clone
+            fn = _clone(fn)
+            fn.body = [normalize._Rename(ren, {}).visit(st_) for st_ in fn.body]
+            ast.fix_missing_locations(fn)
         fn = normalize.expand_quantifiers(fn, self.mod)
         # named groups of states (`headings = (first_heading, ...)`) and named conditions are read through; a call through a bound
         # method chosen in the branches of an if is the direct call in each branch
